@@ -61,6 +61,8 @@ func contentOf(class string, rng *rand.Rand) string {
 		return "2020-02-10 \"gold\"\nEquity:Equity Assets:Portfolio 2 XAU\n"
 	case "accrualInverted":
 		return "@accrue monthly 2020-06-01 2020-01-01 Assets:Portfolio\n2020-02-10 \"inverted accrual window\"\nAssets:Bank Expenses:Food 120 CHF\n"
+	case "accrualUnopened": // the postings generated for the accrual periods hit an account that was never opened
+		return "@accrue monthly 2020-01-01 2020-03-31 Assets:NeverOpened\n2020-02-10 \"accrual through an unopened account\"\nAssets:Bank Expenses:Food 120 CHF\n"
 	case "year1":
 		return "0001-01-01 \"dawn of time\"\nEquity:Equity Assets:Bank 1 CHF\n"
 	case "binary":
@@ -198,7 +200,7 @@ func runC14(bin, root string, id int, s *cmdScenario, seed int64) map[string]any
 
 func C14(c *core.Ctx) {
 	c.Ev.Level = "fault_enumeration"
-	c.Set("rule", "scenario = include graph (single, chain of 3 with sub-directories, diamond, self-include, 2-cycle, missing target, directory as target) x content class of one file (valid, empty, syntax error, invalid account type, unopened account, missing price, inverted accrual window, year-1 date, binary garbage) x its position (root / deepest leaf) x command (check, check --write, balance, balance -v, print, format, infer, transcode, portfolio returns, portfolio weights) x flag class (none, inverted window, --last negative / zero, unknown valuation commodity, valuation flag absent); enumerated by TLC from Command.tla; non-trivial = scenario with at least one fault")
+	c.Set("rule", "scenario = include graph (single, chain of 3 with sub-directories, diamond, self-include, 2-cycle, missing target, directory as target) x content class of one file (valid, empty, syntax error, invalid account type, unopened account, missing price, inverted accrual window, accrual through an unopened account, year-1 date, binary garbage) x its position (root / deepest leaf) x command (check, check --write, balance, balance -v, print, format, infer, transcode, portfolio returns, portfolio weights) x flag class (none, inverted window, --last negative / zero, unknown valuation commodity, valuation flag absent); enumerated by TLC from Command.tla; non-trivial = scenario with at least one fault")
 	c.Trusted("TLC + Json module", "prlimit (address space 6 GiB, 2000 threads), 20 s timeout", "stderr classifier (panic / out of memory / diagnostic)")
 	c.MC("Command", "MC_Command.cfg", 8, 10*time.Minute)
 	c.MC("Loader", c.TierCfg("MC_Loader"), 16, 30*time.Minute)
